@@ -1,9 +1,9 @@
 #!/usr/bin/env python3
 """tools/import_mut3.py <Cxx> <n> "<needs to manifest>" -- copies a sub-agent's confirmed seeded change from its scratch worktree
-/tmp/mut6/<Cxx>/_out (after tools/handle_mut3.sh confirmed and swept it) into /verif/seeded/<Cxx>-<n>/"""
+/tmp/mut7/<Cxx>/_out (after tools/handle_mut3.sh confirmed and swept it) into /verif/seeded/<Cxx>-<n>/"""
 import json, os, shutil, sys, re
 P, N, needs = sys.argv[1], sys.argv[2], sys.argv[3]
-src = f'/tmp/mut6/{P}/_out'
+src = f'/tmp/mut7/{P}/_out'
 dst = f'/verif/seeded/{P}-{N}'
 confirm = json.load(open(f'{src}/{P}.confirm.json'))
 ok = confirm['demo_without_patch_exit'] == 0 and confirm['demo_with_patch_exit'] != 0 and \
@@ -18,7 +18,7 @@ notes = open(f'{src}/{P}.notes.md').read()
 meta = {
   "property": P, "seeded_change": f"{P}-{N}", "breaks": P,
   "needs_to_manifest": needs,
-  "confirmed": {"how": "tools/confirm_mut3.sh in the sub-agent's scratch worktree /tmp/mut6/%s: the demonstration passes without the change and fails with it; `cargo test --workspace --no-fail-fast --offline` with the change shows only the two baseline failures" % P, **confirm},
+  "confirmed": {"how": "tools/confirm_mut3.sh in the sub-agent's scratch worktree /tmp/mut7/%s: the demonstration passes without the change and fails with it; `cargo test --workspace --no-fail-fast --offline` with the change shows only the two baseline failures" % P, **confirm},
   "checks_run": "; ".join(sweep),
   "author_notes_excerpt": notes[:3500],
 }
